@@ -10,7 +10,8 @@
   * every NOTIFY with valid headers is answered 200 (early ones included);
   * after every event, for every service and every variable `x`: take the NOTIFYs received so far for the
     SID granted to that service (none if no SID has been granted), in arrival order; if none carries `x` the
-    variable is still absent — in particular NOTIFYs for SIDs never granted affect no service —; otherwise, if
+    variable is still absent — in particular NOTIFYs for SIDs never granted affect no service (and the number
+    of `on_event` callbacks of a service equals the number of those NOTIFYs: none without a grant) —; otherwise, if
     the text carried by the LATEST one converts and validates, `x` holds exactly that value.  At the event
     "response arrived" this is the property's "once the subscribe call has returned, every variable carried by
     any early NOTIFY holds the value from the latest NOTIFY that carried it".
@@ -31,6 +32,7 @@ structure Obs where
   ev : Ev
   out : Out
   vals : List (List (Str × Option Val))   -- after the event: per service, per variable, `.value`
+  cbs : List Nat := []                    -- after the event: per service, number of `on_event` invocations so far
 deriving Repr
 
 /-- what the judge remembers of the schedule so far -/
@@ -64,6 +66,18 @@ def advance (js : JS) : Ev → JS
       | _ => js'
     else js
 
+/-- the NOTIFYs (valid headers) received so far for the SID granted to service `k`, in arrival order -/
+def notifiesFor (js : JS) (k : Nat) : List Notify :=
+  match grantedSid js k with
+  | some s => js.seen.filter (fun n => n.hdrs.sid == some s)
+  | none => []
+
+/-- callbacks: every NOTIFY for the granted SID was applied exactly once (live or replayed), nothing else —
+    a service without a granted SID has seen no callback at all -/
+def cbsOkAux (js : JS) : Nat → List Nat → Bool
+  | _, [] => true
+  | k, c :: r => c == (notifiesFor js k).length && cbsOkAux js (k + 1) r
+
 /-- the text of `x` in the latest NOTIFY for `sid` that carried it -/
 def latestText (x : Str) (sid : Str) (seen : List Notify) : Option Str :=
   ((seen.filter (fun n => n.hdrs.sid == some sid)).filterMap (fun n => carried x n.body)).getLast?
@@ -94,6 +108,9 @@ def valsOkAux (js : JS) : Nat → List (List Decl) → List (List (Str × Option
 def valsOk (decls : List (List Decl)) (js : JS) (vals : List (List (Str × Option Val))) : Bool :=
   valsOkAux js 0 decls vals
 
+def cbsOk (decls : List (List Decl)) (js : JS) (cbs : List Nat) : Bool :=
+  cbs.length == decls.length && cbsOkAux js 0 cbs
+
 def outOk (o : Obs) : Bool :=
   match o.ev with
   | .notify n => if hdrsOk n.hdrs then (match o.out with | .notified (.status 200) => true | _ => false) else true
@@ -103,7 +120,8 @@ def okFrom (decls : List (List Decl)) : JS → List Obs → Bool
   | _, [] => true
   | js, o :: rest =>
     if evInScope js o.ev then
-      outOk o && valsOk decls (advance js o.ev) o.vals && okFrom decls (advance js o.ev) rest
+      outOk o && valsOk decls (advance js o.ev) o.vals && cbsOk decls (advance js o.ev) o.cbs
+        && okFrom decls (advance js o.ev) rest
     else true
 
 /-- **C11.ok** -/
@@ -122,10 +140,12 @@ def initSt (decls : List (List Decl)) : St := { h := { svcs := decls.map initSvc
 def readVals (s : St) : List (List (Str × Option Val)) :=
   s.h.svcs.map fun sv => sv.vars.map fun v => (v.decl.name, v.st.stored.read)
 
+def readCbs (s : St) : List Nat := s.h.svcs.map (·.events.length)
+
 def modelTrace (cfg : Cfg) : St → List Ev → Nat → List Obs
   | _, [], _ => []
   | s, e :: r, k =>
     let p := step cfg s e k
-    { ev := e, out := p.2, vals := readVals p.1 } :: modelTrace cfg p.1 r (k + 1)
+    { ev := e, out := p.2, vals := readVals p.1, cbs := readCbs p.1 } :: modelTrace cfg p.1 r (k + 1)
 
 end Upnp.C11
